@@ -24,6 +24,9 @@ fam({'C01': ('fifo', 'fifo'), 'C02': ('txn', 'txn'), 'C03': ('retention', 'reten
 fam({'C13': ('main', 'all')},
     driver='channel', tv='ChannelTV', mc_quick=[('ChannelMC', 'ChannelMC')], mc_thorough=[('ChannelMC', 'ChannelMC_big')],
     n=(100, 300, 2000, 6000))
+fam({'C15': ('main', 'all')},
+    driver='notifier', tv='NotifierTV', mc_quick=[('NotifierMC', 'NotifierMC_quick')], mc_thorough=[('NotifierMC', 'NotifierMC_big')],
+    n=(70, 120, 2000, 4000))
 
 
 def sig_of(rej):
